@@ -23,5 +23,8 @@ class VariableBoundBoundsMaxPropagator(VariableBoundMaxPropagator):
         
     def max(self):
 #        print("max: " + str(self.other.domain.range_l[-1][1]+self.offset))
+        if len(self.other.domain.range_l) == 0:
+            # An empty domain on the other side imposes no limit
+            return self.target.domain.range_l[-1][1]
         return (self.other.domain.range_l[-1][1]+self.offset)
     
